@@ -2,7 +2,7 @@
    canonical bijections (model: Codec/Leaf.v, a transcription of tile.go / extensions.go and of
    tlog.Tile.Path / tlog.ParseTilePath; tie: differential run of the extracted model against
    the Go functions, see checks/c10.py). *)
-From SL Require Import Codec.Leaf Codec.LeafProofs.
+From SL Require Import Codec.Leaf Codec.LeafProofs Codec.PathProofs.
 
 (* every entry within the documented limits encodes (no builder error = no panic) and the
    decoder returns exactly that entry and exactly the remaining bytes *)
@@ -51,6 +51,12 @@ Theorem C10_path_canonical : forall s t,
   parse_tile_path s = Some t -> tile_path t = Some s /\ valid_tile t = true.
 Proof. exact parse_path_canonical. Qed.
 Print Assumptions C10_path_canonical.
+
+(* tile paths, direction print -> parse, for hash (L >= 0), data (L = -1) and names (L = -2) tiles *)
+Theorem C10_path_roundtrip : forall t, valid_tile t = true ->
+  exists s, tile_path t = Some s /\ parse_tile_path s = Some t.
+Proof. exact path_roundtrip. Qed.
+Print Assumptions C10_path_roundtrip.
 
 (* non-vacuity: a concrete precertificate entry with two fingerprints meets the hypotheses *)
 Example C10_wf_example :
